@@ -80,7 +80,11 @@ def gen_history(rnd, regs, settings, nblocks=None):
         elif k < 0.7:
             steps.append(["event", rnd.choice(EV_NEUTRAL)])
         elif k < 0.75:
-            steps.append(["event", EV_FILE])
+            if rnd.random() < 0.4:
+                path = rnd.choice(["part.gcode", "other.gcode", "folder/part.gcode"])
+                steps.append(["event", EV_FILE, dict(name=path.split("/")[-1], path=path, origin=rnd.choice(["local", "sdcard"]))])
+            else:
+                steps.append(["event", EV_FILE])          # same file selected again
             cur_regs = []
             homed = False
         elif k < 0.83:
@@ -124,7 +128,7 @@ class Driver(object):
         p = self.p
         k = st[0]
         if k == "event":
-            p.event(st[1])
+            p.event(st[1], st[2] if len(st) > 2 else None)
             return None
         if k == "g":
             raw, out, _ = p.gcode(st[1])
